@@ -124,6 +124,8 @@ const TARGETS: &[Target] = &[
     Target { name: "read_and_cut_bytes", file: "src/cut_bytes.rs", impl_trait: None, impl_self: None, func: "read_and_cut_bytes",
              calls: &[("cut_bytes", "gen_cut_bytes")], deps: &["cut_bytes"],
              imports: "Model.Scan Model.Regex Model.Opt Tie.RsOpt Tie.RsStr Tie.RsList", ret_muts: false, fuel: "" },
+    Target { name: "get_last_bound", file: "src/stream.rs", impl_trait: None, impl_self: Some("ForwardBounds"), func: "get_last_bound",
+             calls: &[], deps: &[], imports: "Model.Scan Model.Regex Model.Opt Model.Stream Tie.RsOpt Tie.RsList", ret_muts: false, fuel: "" },
     Target { name: "fast_try_from", file: "src/fast_lane.rs", impl_trait: Some("TryFrom"), impl_self: Some("FastOpt"),
              func: "try_from", calls: &[], deps: &[], imports: "Model.Scan Model.Regex Model.Opt Tie.RsOpt", ret_muts: false, fuel: "" },
     Target { name: "stream_try_from", file: "src/stream.rs", impl_trait: Some("TryFrom"), impl_self: Some("StreamOpt"),
@@ -133,7 +135,7 @@ const TARGETS: &[Target] = &[
 const WRITE_MAYBE_AS_JSON: &str = "($writer:ident,$to_print:ident,$as_json:expr)=>{{if$as_json{$writer.write_all(serde_json::to_string(std::str::from_utf8(&$to_print)?)?.as_bytes())?;}else{$writer.write_all(&$to_print)?;}}};";
 
 #[derive(Clone, PartialEq, Debug)]
-enum Ty { I32, Usize, Bool, Side, UB, UBL, Regex, Trim, StreamRec, Range, Opt(Box<Ty>), List(Box<Ty>), OptRec, FastRec, BType, Bytes, Byte, Str, Pair(Box<Ty>, Box<Ty>), Other }
+enum Ty { I32, Usize, Bool, Side, UB, UBL, Regex, Trim, StreamRec, FBRec, Range, Opt(Box<Ty>), List(Box<Ty>), OptRec, FastRec, BType, Bytes, Byte, Str, Pair(Box<Ty>, Box<Ty>), Other }
 
 type R<T> = std::result::Result<T, String>;
 
@@ -176,7 +178,7 @@ fn coq_ty(t: &Ty) -> Option<String> {
         Ty::I32 | Ty::Usize => "Z".into(), Ty::Bool => "bool".into(), Ty::Side => "side".into(), Ty::UB => "ubound".into(), Ty::UBL => "ublist".into(),
         Ty::Regex => "(rx * bool)%type".into(), Ty::Trim => "trimk".into(), Ty::Range => "(Z * Z)%type".into(),
         Ty::Opt(x) => format!("(option {})", coq_ty(x)?), Ty::List(x) => format!("(list {})", coq_ty(x)?),
-        Ty::OptRec => "opt".into(), Ty::FastRec => "gfopt".into(), Ty::StreamRec => "gsopt".into(), Ty::BType => "btype".into(), Ty::Bytes | Ty::Str => "bytes".into(), Ty::Byte => "byte".into(),
+        Ty::OptRec => "opt".into(), Ty::FastRec => "gfopt".into(), Ty::StreamRec => "gsopt".into(), Ty::FBRec => "gfb".into(), Ty::BType => "btype".into(), Ty::Bytes | Ty::Str => "bytes".into(), Ty::Byte => "byte".into(),
         Ty::Pair(a, b) => format!("({} * {})%type", coq_ty(a)?, coq_ty(b)?), Ty::Other => return None,
     })
 }
@@ -248,6 +250,10 @@ fn field(recv: &Ty, name: &str) -> Option<(&'static str, Ty)> {
             "fallback_oob" => ("gf_fallback", Ty::Opt(Box::new(Ty::Bytes))),
             _ => return None,
         });
+    }
+    if *recv == Ty::FBRec {
+        // src/stream.rs: struct ForwardBounds  ->  Tie/RsOpt.v: Record gfb
+        return Some(match name { "list" => ("fb_list", Ty::UBL), "last_bound_idx" => ("fb_last", Ty::Usize), _ => return None });
     }
     if *recv == Ty::StreamRec {
         // src/stream.rs: struct StreamOpt  ->  Tie/RsOpt.v: Record gsopt (ForwardBounds as the list it holds)
@@ -1110,7 +1116,9 @@ impl Cx {
             }
             Expr::Macro(m) => {
                 let name = path_str(&m.mac.path);
-                if name == "bail" { bail_args_harmless(&m.mac)?; Ok(format!("({} None)", self.retk())) } else { Err(format!("macro `{}!`", name)) }
+                if name == "bail" { bail_args_harmless(&m.mac)?; Ok(format!("({} None)", self.retk())) }
+                else if name == "panic" { Ok(format!("(@Panic {})", self.ret_ty)) }
+                else { Err(format!("macro `{}!`", name)) }
             }
             Expr::Call(c) => {
                 let f = match &*c.func { Expr::Path(p) => path_str(&p.path), _ => return Err("call of a non-path".into()) };
@@ -1541,7 +1549,7 @@ fn translate(t: &Target, sig: &Signature, block: &Block, ret_tys: &HashMap<Strin
                       call_ty: t.calls.iter().filter_map(|(a, b)| ret_tys.get(*b).map(|ty| (a.to_string(), ty.clone()))).collect(),
                       renames: vec![], tuple_hint: vec![], ret_ty: String::new(), inline_k: false, muts: vec![], rebind_ok: false, writers: vec![], readers: vec![], loop_state: vec![], fuel: t.fuel.to_string(), retk_stack: vec![], stage_top: None, stages: vec![] };
     cx.inline_k = quote::ToTokens::to_token_stream(block).to_string().contains("let mut ");
-    let self_coq = match t.impl_self { Some("Side") => ("side", Ty::Side), Some("UserBounds") => ("ubound", Ty::UB), Some("UserBoundsList") => ("ublist", Ty::Other), Some("FastOpt") => ("gfopt", Ty::Other), Some("StreamOpt") => ("gsopt", Ty::Other), Some("ForwardBounds") => ("gfb", Ty::Other), _ => ("UNKNOWN", Ty::Other) };
+    let self_coq = match t.impl_self { Some("Side") => ("side", Ty::Side), Some("UserBounds") => ("ubound", Ty::UB), Some("UserBoundsList") => ("ublist", Ty::Other), Some("FastOpt") => ("gfopt", Ty::Other), Some("StreamOpt") => ("gsopt", Ty::Other), Some("ForwardBounds") => ("gfb", Ty::FBRec), _ => ("UNKNOWN", Ty::Other) };
     let mut rty = Ty::Other;
     cx.ret_ty = match &sig.output {
         ReturnType::Type(_, t) => {
